@@ -221,6 +221,7 @@ pub extern "C" fn on_alarm(_s: i32) {
         let parent_holds_peer = ino != 0 && mine.iter().any(|(i, a)| *i == ino && *a == peer_acc);
         // does any *other* process hold that peer end (then the parent is not the only one to blame)
         let mut others_hold_peer = false;
+        let mut peer_pids: Vec<i32> = vec![];
         if ino != 0 {
             for other in my_children() {
                 if other == pid {
@@ -236,6 +237,9 @@ pub extern "C" fn on_alarm(_s: i32) {
                                     let acc = i64::from_str_radix(x.trim(), 8).unwrap_or(0) & 3;
                                     if acc == peer_acc {
                                         others_hold_peer = true;
+                                        if !peer_pids.contains(&other) {
+                                            peer_pids.push(other);
+                                        }
                                     }
                                 }
                             }
@@ -244,7 +248,7 @@ pub extern "C" fn on_alarm(_s: i32) {
                 }
             }
         }
-        holders.push(json!([pid, inos, what, ino, parent_holds_peer, others_hold_peer]));
+        holders.push(json!([pid, inos, what, ino, parent_holds_peer, others_hold_peer, peer_pids]));
     }
     for h in &holders {
         unsafe {
